@@ -769,6 +769,12 @@ func validateExpressionAttributes(exprNames map[string]*string, exprValues map[s
 		}
 	}
 
+	for _, expression := range genericExpressions {
+		if word := language.ReservedWordIn(expression); word != "" {
+			return awserr.New("ValidationException", "Invalid expression: Attribute name is a reserved keyword; reserved keyword: "+word, nil)
+		}
+	}
+
 	return nil
 }
 
